@@ -23,7 +23,7 @@ import traceback
 
 from ..report import OUT as ROOT, Run
 
-FIT_DEFAULT = dict(epochs=1, n_train=1, bs=2, val=None, ev=None, cb_train=False, cb_val=False, rem=0, val_raises=False)
+FIT_DEFAULT = dict(epochs=1, n_train=1, bs=2, val=None, ev=None, cb_train=False, cb_val=False, rem=0, val_raises=False, ev_cb=False)
 
 
 def fit_cases(tier):
@@ -34,7 +34,8 @@ def fit_cases(tier):
         if rem and bs == 1:
             continue
         for vr in ((False, True) if val else (False,)):
-            out.append(dict(epochs=ep, n_train=nt, bs=bs, val=val, ev=ev, cb_train=ct, cb_val=cv, rem=rem, val_raises=vr))
+            for ecb in ((False, True) if ev and not vr else (False,)):      # Evaluator built with user epoch_callback / step_callback metrics
+                out.append(dict(epochs=ep, n_train=nt, bs=bs, val=val, ev=ev, cb_train=ct, cb_val=cv, rem=rem, val_raises=vr, ev_cb=ecb))
     return out
 
 
